@@ -88,6 +88,15 @@ def gen_sources(depth3_reps):
                     kids = ["e.x"] * k
                     kids[slot] = csrc
                     out.setdefault(fill(tpl, kids), ("d3", f"{name}[{slot}]<-{cname}[all]<-{gname}"))
+    # the same on two levels: every slot of the parent holds the child whose every slot holds the grandchild
+    for name, tpl, k in PRODS:
+        if name in DIAG_PARENTS:
+            for cname, ctpl, ck in PRODS:
+                if cname in DIAG_PARENTS + ("dict.space", "tuple1", "dictattr", "neg", "not") and ck >= 1:
+                    for gname in DIAG_CHILDREN:
+                        g = d1[gname]
+                        s = fill(tpl, [fill(ctpl, [g] * ck)] * k)
+                        out.setdefault(s, ("d3", f"{name}[all]<-{cname}[all]<-{gname}"))
     reps = [p for p in PRODS if p[0] in depth3_reps]
     for (name, slot, cname), _ in list(d2.items()):
         ctpl, ck = next((t, k) for n, t, k in allp if n == cname)
